@@ -22,7 +22,7 @@ NA = {
 CHECKS = {
  "C10": dict(
    level="exploration",
-   text="Definition-level fault injection against a fault-free reference run: 1..3 faults per run from cooperative fault points in the compiler (verif::buggify at the per-definition generator fold of both backends, at the validator fold and in the linker loop), replacement of type assignments by parseable but unsupported definitions (REAL, VideotexString, inverted range, MACRO), and one module of several that does not lex. Oracles: accounting (every assignment is represented by the items attributed to it in the fault-free run, or matched to a new warning - named, or unnamed via bipartite matching); locality (every item of a definition that does not depend on a faulted one is token-identical to the fault-free run; for buggify faults nothing but the faulted definition is exempt); Err when any source fails to lex; normal return and renderable warnings. Both backends, random RasnConfig. The fault-free run itself is checked for completeness (leaving a definition out must remove an item, unless a warning of that run names the definition); the generator also emits values governed by a class field or a selection type. Workloads include classes, objects, parameterized templates (tagged or not, with type and value parameters) with instances, and members inherited with COMPONENTS OF. Scenario formatter-faults: the rustfmt stand-in fails VISIBLY (killed by a signal in the middle of its output, exit status 1/2/3, output that is not UTF-8) - compile_to_string() and compile() must return the unformatted or the completely formatted bindings, never a part of them, unless a new warning says so. Scenario xmod-name re-observes known finding F1 with rename-apart classification.",
+   text="Definition-level fault injection against a fault-free reference run: 1..3 faults per run from cooperative fault points in the compiler (verif::buggify at the per-definition generator fold of both backends, at the validator fold and in the linker loop), replacement of type assignments by parseable but unsupported definitions (REAL, VideotexString, inverted range, MACRO), and one module of several that does not lex. Oracles: accounting (every assignment is represented by the items attributed to it in the fault-free run, or matched to a new warning - named, or unnamed via bipartite matching); locality (every item of a definition that does not depend on a faulted one is token-identical to the fault-free run; for buggify faults nothing but the faulted definition is exempt); Err when any source fails to lex; normal return and renderable warnings. Both backends, random RasnConfig; in a third of the runs the sources reach the compiler as files through the simulated disk and the typestate builder is driven along a random path (output mode first, last or BETWEEN two sources, paths one by one or in batches, backend swapped). The fault-free run itself is checked for completeness (leaving a definition out must remove an item, unless a warning of that run names the definition); the generator also emits values governed by a class field or a selection type. Workloads include classes, objects, parameterized templates (tagged or not, with type and value parameters) with instances, and members inherited with COMPONENTS OF. Scenario formatter-faults: the rustfmt stand-in fails VISIBLY (killed by a signal in the middle of its output, exit status 1/2/3, output that is not UTF-8) - compile_to_string() and compile() must return the unformatted or the completely formatted bindings, never a part of them, unless a new warning says so. Scenario xmod-name re-observes known finding F1 with rename-apart classification.",
    note="Attribution of items to definitions is learned by leave-one-out compilation in the reference child; definitions with empty attribution are not judged; a dependent of a REPLACED definition counts as represented when any of its items is still there (it legitimately changes shape). A formatter that exits 0 without output lies about its success and is not a fault this property is judged under. Sampling, not proof.",
    technique="deterministic simulation with fault injection: buggify-style cooperative fault points at definition granularity plus input-level definition faults; accounting/locality oracles against a fault-free reference",
    design="§4 C10"),
@@ -34,25 +34,25 @@ CHECKS = {
    design="§4 C12"),
  "C17": dict(
    level="exploration",
-   text="SLICE of the property: stored-byte corruption of valid generated sources (1..3 modules, LF/CRLF, comments). One byte replaced by a byte that starts no ASN.1 token, a 512-byte sector zero-filled, or truncation inside an assignment, at strict positions known from the generator's token map; small sources swept exhaustively over every strict byte, larger ones sampled, every header/assignment/END hit at its first and last byte; given as a literal and as a file whose bytes the simulated disk corrupts in flight. Oracle on every syntax error: offset within input and on a char boundary; line = 1 + line breaks before offset (also for the context start); position not before the first token of the malformed unit and not after the first corrupted byte; Display line = contextualize header line = contextualize flagged line = structured line, a row is flagged whenever the reported line is part of the excerpt and not blank, and the flagged row shows that line's text; path reported iff the corrupted source was given by path, also when well-formed file and literal sources precede it. One case in twenty-five runs after a HISTORY of up to 140 other compilations on the same thread (nesting of 3..100 levels, sources cut at end of input, comments and strings that never end). One literal case in twenty is preceded IN THE SAME SOURCE by a hand-written module of notation the generator does not write (ENCODING-CONTROL, classes with syntax, macros, boundary literals ...). Two-byte corruptions: a comma between two components blanked plus a later damaged byte of the same assignment - the bound is then the identifier after the lost comma (known finding lenient-comma-then-damaged-default when the later damage sits inside a DEFAULT value).",
+   text="SLICE of the property: stored-byte corruption of valid generated sources (1..3 modules, LF/CRLF, comments). One byte replaced by a byte that starts no ASN.1 token, a 512-byte sector zero-filled, or truncation inside an assignment, at strict positions known from the generator's token map; small sources swept exhaustively over every strict byte, larger ones sampled, every header/assignment/END hit at its first and last byte; given as a literal and as a file whose bytes the simulated disk corrupts in flight. Oracle on every syntax error: offset within input and on a char boundary; line = 1 + line breaks before offset (also for the context start); position not before the first token of the malformed unit and not after the first corrupted byte; Display line = contextualize header line = contextualize flagged line = structured line, a row is flagged whenever the reported line is part of the excerpt and not blank, and the flagged row shows that line's text; path reported iff the corrupted source was given by path, also when well-formed file and literal sources precede it, when the file's name holds punctuation, non-ASCII characters or bytes that are not valid UTF-8 (the path is then reported as to_string_lossy renders it), and when the file system reports the file's size as 0 although all of it can be read (a benign stat fault: the error must still be found where the damage is). One case in twenty-five runs after a HISTORY of up to 140 other compilations on the same thread (nesting of 3..100 levels, sources cut at end of input, comments and strings that never end). One literal case in twenty is preceded IN THE SAME SOURCE by a hand-written module of notation the generator does not write (ENCODING-CONTROL, classes with syntax, macros, boundary literals ...). Two-byte corruptions: a comma between two components blanked plus a later damaged byte of the same assignment - the bound is then the identifier after the lost comma (known finding lenient-comma-then-damaged-default when the later damage sits inside a DEFAULT value).",
    note="Not claimed: deletion/replacement by another valid token (a typo model; needs a generator-driven differential). Ok results and non-syntax errors are not judged. The token map only has to be right for text the generator itself produces.",
    technique="deterministic simulation with fault injection: stored-byte corruption at token-map positions, delivered as literals and through the simulated disk seam; position/consistency oracles over the structured report and both renderings",
    design="§4 C17"),
  "C08": dict(
    level="exploration",
-   text="SLICE of the property: storage-fault images of valid sources. Each run takes a real-world corpus file (all 892 walked systematically), a generated module set (every notation knob of the generator, incl. definitions that compile with warnings quoting multi-byte text) or, one run in eight, a hand-written base (dsim/samples: two notation files covering the notation of X.680-X.683 the compiler accepts, 73 modules with reference cycles of every kind also entered from outside the cycle, 42 inputs in valid notation the compiler rejects, 68 inputs with boundary literals in every literal position - 2^63..10^400, exact ends of i64/u64/i128, inverted ranges, f64 overflow, empty/odd/long bit and hex strings, character tuples, time strings) and a batch of images of it - truncation at any byte (biased to the last bytes; in the thorough tier every prefix of small generated sources), single-bit flips, 512-byte sector zero-fill/duplicate/swap, splices of two files - delivered as a literal or as a file read through the simulated disk (the seam applies truncation/flip/zero-fill to the bytes in flight), compiles with both backends (half of the runs with a random RasnConfig) and renders every error and warning with Display and contextualize. Oracle: the operation returns; no panic (hook + catch_unwind), no SIGSEGV/SIGABRT, no CPU-budget overrun, on 2 MiB and 8 MiB stacks.",
+   text="SLICE of the property: storage-fault images of valid sources. Each run takes a real-world corpus file (all 892 walked systematically), a generated module set (every notation knob of the generator, incl. definitions that compile with warnings quoting multi-byte text) or, one run in eight, a hand-written base (dsim/samples: two notation files covering the notation of X.680-X.683 the compiler accepts, 73 modules with reference cycles of every kind also entered from outside the cycle, 42 inputs in valid notation the compiler rejects, 70 inputs with boundary literals in every literal position - 2^63..10^400, exact ends of i64/u64/i128, inverted ranges, f64 overflow, empty/odd/long bit and hex strings, character tuples, time strings) and a batch of images of it - truncation at any byte (biased to the last bytes; in the thorough tier every prefix of small generated sources), single-bit flips, 512-byte sector zero-fill/duplicate/swap, splices of two files - delivered as a literal or as a file read through the simulated disk (the seam applies truncation/flip/zero-fill to the bytes in flight), compiles with both backends (half of the runs with a random RasnConfig) and renders every error and warning with Display and contextualize. Oracle: the operation returns; no panic (hook + catch_unwind), no SIGSEGV/SIGABRT, no CPU-budget overrun, on 2 MiB and 8 MiB stacks.",
    note="Not claimed: arbitrary byte soup and GENERATED exotic notation / cycles (an input fuzzer, another technique family); hand-written bases with that notation and with reference cycles are part of the check. Rejecting malformed input with >= 20 nested value braces / WITH COMPONENTS / object-set braces takes exponential time, and types nested some 250 levels deep exhaust a 2 MiB stack (both recorded in DESIGN 10.2, in no base). Every simulated run executes in a child forked from a parent that never ran compiler code; crash containment and the CPU budget are the worker's.",
    technique="deterministic simulation with fault injection: seeded storage-fault images (truncation, bit flip, sector faults, splice) delivered through a simulated disk seam, crash/hang supervision per forked run",
    design="§4 C08"),
  "C11": dict(
    level="exploration",
-   text="Deterministic simulation of 1..16 caller threads under a seeded baton scheduler (random, PCT and run-to-completion strategies; yield points at every intercepted libc call and at the verif-hooks points inside lexing, linking, validation and per-definition generation), each thread with a history of compilations over generated module sets, their siblings (same names, different bodies/defaults) and corpus files, in random arrangements (assignment permutation, module order, regrouping into sources), with seeded HashSet keys (getrandom seam) and benign read faults; sources handed over twice; multi-file sets of real-world modules with disjoint names in permuted source order; every module permutation of small sets; reused scratch file paths with new content. A watchdog passes the baton on when its holder blocks on a lock another sim thread holds. Scenario fine-grain adds the ALLOCATOR seam: every k-th heap allocation (k in 1..64) of the code under test is a yield point, 2..3 threads, rare switches - interleavings far below hook-point granularity, replayable because the k-th allocation of a deterministic computation is a deterministic place. Scenario formatter makes the rustfmt stand-in reachable in modes that are a pure function of its input (healthy, exit 3, rejecting some sources with exit 1), so results must not depend on what the same thread formatted before. IMPORTS may name the exporter by another module reference together with its object identifier. One operation in five is a compile() into a file path that all operations of the thread reuse (the file's content is the result compared). Scenario xmod-name re-observes known finding F1. Oracle: every result is byte-identical (text and warning multiset) to a canonical-order single-threaded compilation in a pristine process of its own.",
+   text="Deterministic simulation of 1..16 caller threads under a seeded baton scheduler (random, PCT and run-to-completion strategies; yield points at every intercepted libc call and at the verif-hooks points inside lexing, linking, validation and per-definition generation), each thread with a history of compilations over generated module sets, their siblings (same names, different bodies/defaults) and corpus files, in random arrangements (assignment permutation, module order, regrouping into sources), with seeded HashSet keys (getrandom seam) and benign read faults; sources handed over twice; multi-file sets of real-world modules with disjoint names in permuted source order; every module permutation of small sets; reused scratch file paths with new content. A watchdog passes the baton on when its holder blocks on a lock another sim thread holds. Scenario fine-grain adds the ALLOCATOR seam: every k-th heap allocation (k in 1..64) of the code under test is a yield point, 2..3 threads, rare switches - interleavings far below hook-point granularity, replayable because the k-th allocation of a deterministic computation is a deterministic place. Scenario formatter makes the rustfmt stand-in reachable in modes that are a pure function of its input (healthy, exit 3, rejecting some sources with exit 1), so results must not depend on what the same thread formatted before. IMPORTS may name the exporter by another module reference together with its object identifier. One operation in five is a compile() into a file path that all operations of the thread reuse (the file's content is the result compared); in a third of the multi-threaded runs two threads deliver into ONE directory, one with the TypeScript and one with the rasn backend (two files, each written by one thread only). Scenario xmod-name re-observes known finding F1. Oracle: every result is byte-identical (text and warning multiset) to a canonical-order single-threaded compilation in a pristine process of its own.",
    note="Sampling, not proof. Interleaving granularity is hook points and system calls, and heap allocations in the fine-grain scenario. Multi-file corpus sets are combined only when an over-approximate token scan finds their names disjoint (finding F1).",
    technique="deterministic simulation: seeded thread schedules (baton scheduler over real OS threads; yield points at system calls, compiler hook points and heap allocations), process histories, permuted delivery, seeded hash keys, formatter subprocess seam; differential against a pristine reference process",
    design="§4 C11"),
  "C20": dict(
    level="fault_enumeration",
-   text="Deterministic simulation of compile() against a simulated disk/stdout/entropy seam (LD_PRELOAD shim deciding libc call outcomes over the real tmpfs). Each seeded workload (generated module set x malformed variant x backend/config x literal/file delivery x builder path x output mode x destination state) is run fault-free to record its I/O trace, then EVERY applicable single fault at EVERY call position of that trace is injected (complete single-fault sweep per workload), then sampled double/triple faults. Oracles: delivered bytes == compile_to_string() from a pristine reference process; failed compilation issues no mutating call (checked on the call history, so it covers every crash point); hard faults become the right Err, never Ok or a panic; a delivery that fails leaves a pre-existing destination in place and never unlinks or renames anything; directory destinations may come into being only after the builder is complete and with_backend() may be called last (the file system at delivery decides); benign faults (EINTR, short I/O) are invisible. Further scenarios: fmt (rustfmt stand-in in nine modes x five installation states, outputs above the pipe buffer), cli (the real rasn_compiler_cli binary as a child under the same seam: generated trees with nested/hidden directories, links, loops, every listing permuted, order-sensitive -m sources, a module file emptied underneath the tool at any read; exit status and delivered bytes equal the library's), macro (asn1! inside a real rustc against compile_to_string()).",
+   text="Deterministic simulation of compile() against a simulated disk/stdout/entropy seam (LD_PRELOAD shim deciding libc call outcomes over the real tmpfs). Each seeded workload (generated module set x malformed variant x backend/config x literal/file delivery x builder path x output mode x destination state) is run fault-free to record its I/O trace, then EVERY applicable single fault at EVERY call position of that trace is injected (complete single-fault sweep per workload), then sampled double/triple faults. Oracles: delivered bytes == compile_to_string() from a pristine reference process; failed compilation issues no mutating call (checked on the call history, so it covers every crash point); hard faults become the right Err, never Ok or a panic; a delivery that fails leaves a pre-existing destination in place and never unlinks or renames anything; directory destinations may come into being only after the builder is complete and with_backend() may be called last (the file system at delivery decides); benign faults (EINTR, short I/O, a file whose reported size is 0 or 7 bytes although all of it can be read) are invisible; the destination is also named through the deprecated set_output_path, and the output mode is also set between two sources. Scenario seq: HISTORIES of 2..4 compile() operations in one process, on one sim thread after the other or on 2..3 threads interleaved at every intercepted call, each with its own sources, destination, backend and builder path, followed by runs with one sampled fault at a call position of the recorded trace; every operation is judged as in lib, every mutating call must name a path under the operation's own directory, and when all are done every destination holds what ITS operation delivered and nothing else exists. Further scenarios: fmt (rustfmt stand-in in nine modes x five installation states, outputs above the pipe buffer), cli (the real rasn_compiler_cli binary as a child under the same seam: generated trees with nested/hidden directories, links, loops, every listing permuted, order-sensitive -m sources, file and directory names with punctuation and non-ASCII characters, a directory named like a module inside the searched tree, a module file emptied underneath the tool at any read; exit status and delivered bytes equal the library's), macro (asn1! inside a real rustc against compile_to_string()).",
    note="Trusted: the shim's interposition covers the libc entry points a Rust binary uses on this toolchain (un-modelled calls on paths under the run root are a harness error, not silence); kernel tmpfs is real; workloads are sampled, the per-workload fault sweep is exhaustive.",
    technique="deterministic simulation with fault injection: single-fault enumeration over recorded I/O traces + seeded multi-fault sampling",
    design="§4 C20"),
